@@ -153,7 +153,10 @@ impl HdlcDeframer {
                 // Up to seven bits of the closing flag are collected on top of
                 // the frame itself before the flag is recognized.
                 if bits.len() > self.max_size * 8 + 7 {
-                    return Ok(State::Unsynced(0xff));
+                    // Too long. Keep hunting for a flag, starting with this
+                    // bit: it may be the first bit of the closing flag, which
+                    // the next frame may share.
+                    return Ok(State::Unsynced((0xff >> 1) | (bit << 7)));
                 }
                 if bit > 0 {
                     bits.push(1);
